@@ -71,6 +71,32 @@ func genSched(t *rapid.T) SchedScript {
 	next := uint32(1)
 	var open, closed []uint32
 	idle := []uint32{}
+	if s.Sched == "priority" && rapid.IntRange(0, 19).Draw(t, "deep") == 0 {
+		// deep dependency chain: stream i depends on stream i-1; some streams get frames; then a stream near the
+		// top is made dependent on one of its own descendants far below (RFC 7540 5.3.3: the descendant moves up
+		// first), and everything queued must still come out
+		depth := rapid.SampledFrom([]int{20, 63, 64, 65, 66, 70, 100, 129, 150, 257}).Draw(t, "depth")
+		var chain []uint32
+		for i := 0; i < depth; i++ {
+			id := next
+			next += 2
+			s.Ops = append(s.Ops, SchedOp{Op: "open", ID: id})
+			open = append(open, id)
+			if len(chain) > 0 {
+				s.Ops = append(s.Ops, SchedOp{Op: "adjust", ID: id, Dep: chain[len(chain)-1], Weight: 15, Excl: i%7 == 3})
+			}
+			chain = append(chain, id)
+		}
+		for k := rapid.IntRange(1, 4).Draw(t, "loaded"); k > 0; k-- {
+			id := chain[rapid.IntRange(0, depth-1).Draw(t, "lid")]
+			s.Ops = append(s.Ops, SchedOp{Op: "push_headers", ID: id}, SchedOp{Op: "push_data", ID: id, N: 1000})
+		}
+		top := rapid.IntRange(0, 3).Draw(t, "top")
+		low := depth - 1 - rapid.IntRange(0, 3).Draw(t, "low")
+		if low > top {
+			s.Ops = append(s.Ops, SchedOp{Op: "adjust", ID: chain[top], Dep: chain[low], Weight: 15, Excl: rapid.Bool().Draw(t, "cexcl")})
+		}
+	}
 	n := rapid.IntRange(1, 60).Draw(t, "nops")
 	for i := 0; i < n; i++ {
 		kinds := []string{"open", "open", "adjust", "adjust", "push_control", "push_rst", "win_conn", "pop", "pop", "pop", "max_frame"}
@@ -305,6 +331,21 @@ func execSched(s SchedScript) (v *vstat.Violation, inf schedInfo) {
 			if op.Dep == op.ID {
 				inf.classes["adjust:self-dependency"] = true
 			}
+			if pw, ok := ws.(*priorityWriteScheduler); ok && op.Dep != op.ID {
+				d := 0
+				for n := pw.nodes[op.Dep]; n != nil && d < 100000; n = n.parent {
+					d++
+					if n.id == op.ID && n.id != 0 {
+						inf.classes["adjust:dependency-on-own-descendant"] = true
+						if d > 64 {
+							inf.classes["adjust:dependency-on-own-descendant>64-levels-below"] = true
+						}
+					}
+				}
+				if d > 64 {
+					inf.classes["adjust:parent-deeper-than-64"] = true
+				}
+			}
 			ws.AdjustStream(op.ID, PriorityParam{StreamDep: op.Dep, Exclusive: op.Excl, Weight: op.Weight})
 		case "push_control":
 			tag++
@@ -477,7 +518,7 @@ func idOf(n *priorityNode) any {
 }
 
 func TestVerifSched(t *testing.T) {
-	colSched.Mandatory("sched:roundrobin", "sched:random", "sched:priority", "close-with-frames-queued", "stream-window<=0", "connection-window<=0", "adjust:exclusive", "adjust:self-dependency", "pop:data-split", "pop:control", "pop:nothing-sendable")
+	colSched.Mandatory("sched:roundrobin", "sched:random", "sched:priority", "close-with-frames-queued", "stream-window<=0", "connection-window<=0", "adjust:exclusive", "adjust:self-dependency", "pop:data-split", "pop:control", "pop:nothing-sendable", "adjust:dependency-on-own-descendant", "adjust:dependency-on-own-descendant>64-levels-below")
 	vstat.Run(t, vstat.Spec[SchedScript]{Col: colSched, Quick: 30000, Thorough: 1000000, Gen: genSched,
 		Exec: func(s SchedScript) *vstat.Violation {
 			v, inf := execSched(s)
